@@ -1,0 +1,231 @@
+//go:build verif
+
+// Contracts for package rtpconn, checked by /verif (gvc).  This file
+// contains no declarations; it is compiled only with the verif build tag.
+
+package rtpconn
+
+//@ -- ------------------------------------------------------------------ layer word (C04)
+//@ -- The selected / wanted / highest-seen layers of a down track live in one atomic 32-bit word.
+//@ spec wsid(w uint32) uint8 = uint8(w & 0xF)
+//@ spec wwantedSid(w uint32) uint8 = uint8((w >> 4) & 0xF)
+//@ spec wmaxSid(w uint32) uint8 = uint8((w >> 8) & 0xF)
+//@ spec wlimitSid(w uint32) bool = ((w >> 12) & 1) != 0
+//@ spec wtid(w uint32) uint8 = uint8((w >> 16) & 0xF)
+//@ spec wwantedTid(w uint32) uint8 = uint8((w >> 20) & 0xF)
+//@ spec wmaxTid(w uint32) uint8 = uint8((w >> 24) & 0xF)
+//@ spec pack(l layerInfo) uint32 = uint32(l.sid & 0xF) | (uint32(l.wantedSid & 0xF) << 4) | (uint32(l.maxSid & 0xF) << 8) | (l.limitSid ? 0x1000 : 0)
+//@      | (uint32(l.tid & 0xF) << 16) | (uint32(l.wantedTid & 0xF) << 20) | (uint32(l.maxTid & 0xF) << 24)
+//@ -- INV: the selection never exceeds the highest layers seen; a receiver limited to the lowest
+//@ -- spatial layer never wants another one; every field fits its 4 bits
+//@ spec inv(l layerInfo) bool = l.sid <= l.maxSid && l.wantedSid <= l.maxSid && l.tid <= l.maxTid && l.wantedTid <= l.maxTid
+//@      && (l.limitSid ==> l.wantedSid == 0) && l.maxSid < 16 && l.maxTid < 16
+//@ spec invw(w uint32) bool = wsid(w) <= wmaxSid(w) && wwantedSid(w) <= wmaxSid(w) && wtid(w) <= wmaxTid(w) && wwantedTid(w) <= wmaxTid(w)
+//@      && (wlimitSid(w) ==> wwantedSid(w) == 0) && (w & 0xF000E000) == 0
+//@
+//@ func (*rtpDownTrack).getLayerInfo
+//@   safe
+//@   props C04 C12
+//@   requires nonnil: down != nil && down.atomics != nil
+//@   -- rely: every value ever stored in the word satisfies invw, because the only store is in setLayerInfo,
+//@   -- which requires inv of what it stores (guarantee, proved at every call site), and the initial word is 0
+//@   assume rely-inv: invw(down.atomics.layerInfo)
+//@   modifies nothing
+//@   ensures unpack: result.sid == wsid(down.atomics.layerInfo) && result.wantedSid == wwantedSid(down.atomics.layerInfo)
+//@        && result.maxSid == wmaxSid(down.atomics.layerInfo) && result.limitSid == wlimitSid(down.atomics.layerInfo)
+//@        && result.tid == wtid(down.atomics.layerInfo) && result.wantedTid == wwantedTid(down.atomics.layerInfo)
+//@        && result.maxTid == wmaxTid(down.atomics.layerInfo)
+//@   ensures inv: inv(result)
+//@   ensures roundtrip: pack(result) == down.atomics.layerInfo
+//@
+//@ func (*rtpDownTrack).setLayerInfo
+//@   safe
+//@   props C04 C12
+//@   requires nonnil: down != nil && down.atomics != nil
+//@   -- guarantee: only words satisfying the invariant are ever stored
+//@   requires inv: inv(info)
+//@   modifies down.atomics.layerInfo
+//@   ensures stored: down.atomics.layerInfo == pack(info)
+//@   ensures inv: invw(down.atomics.layerInfo)
+//@   -- C04: packing loses nothing
+//@   ensures lossless: wsid(down.atomics.layerInfo) == info.sid && wwantedSid(down.atomics.layerInfo) == info.wantedSid
+//@        && wmaxSid(down.atomics.layerInfo) == info.maxSid && wlimitSid(down.atomics.layerInfo) == info.limitSid
+//@        && wtid(down.atomics.layerInfo) == info.tid && wwantedTid(down.atomics.layerInfo) == info.wantedTid
+//@        && wmaxTid(down.atomics.layerInfo) == info.maxTid
+//@
+//@ func (*bitrate).Get
+//@   safe
+//@   props C04 C12
+//@   requires nonnil: br != nil
+//@   modifies nothing
+//@   ensures stale: (now < br.jiffies || now - br.jiffies > receiverReportTimeout) ==> result == 0xFFFFFFFFFFFFFFFF
+//@   ensures fresh: !(now < br.jiffies || now - br.jiffies > receiverReportTimeout) ==> result == br.bitrate
+//@
+//@ func (*bitrate).Set
+//@   safe
+//@   props C04 C12
+//@   requires nonnil: br != nil
+//@   modifies br.bitrate, br.jiffies
+//@   ensures set: br.bitrate == bitrate && br.jiffies == now
+//@
+//@ func sadd
+//@   safe
+//@   props C04 C12
+//@   modifies nothing
+//@   -- saturating addition: never wraps
+//@   ensures saturates: result >= x && result >= y && (result == x + y || result == 0xFFFFFFFFFFFFFFFF)
+//@   ensures exact: x + y >= x ==> result == x + y
+//@
+//@ -- well-formed down track: the objects Write, adjustLayer and the feedback handlers dereference exist
+//@ -- (that they are separate objects follows from their types: allocation-type tags, DESIGN 2.4)
+//@ spec dtwf(t *rtpDownTrack) bool = t.atomics != nil && t.maxBitrate != nil && t.maxREMBBitrate != nil && t.rate != nil
+//@
+//@ func (*rtpDownTrack).GetMaxBitrate
+//@   safe
+//@   props C04 C12
+//@   requires nonnil: t != nil && dtwf(t)
+//@   assume rely-inv: invw(t.atomics.layerInfo)
+//@   modifies nothing
+//@   ensures layers: result1 == int(wsid(t.atomics.layerInfo)) && result2 == int(wtid(t.atomics.layerInfo))
+//@
+//@ func (*rtpDownTrack).adjustLayer
+//@   safe
+//@   props C04 C12
+//@   requires nonnil: t != nil && dtwf(t)
+//@   assume rely-inv: invw(t.atomics.layerInfo)
+//@   modifies t.atomics.layerInfo, *t.rate
+//@   ensures inv: invw(t.atomics.layerInfo)
+//@   -- C04: bitrate adaptation only moves the *wanted* layers, by at most one step from the current ones,
+//@   --      never above the highest layers seen, and never touches the layers currently forwarded
+//@   ensures current-kept: wsid(t.atomics.layerInfo) == old(wsid(t.atomics.layerInfo)) && wtid(t.atomics.layerInfo) == old(wtid(t.atomics.layerInfo))
+//@        && wmaxSid(t.atomics.layerInfo) == old(wmaxSid(t.atomics.layerInfo)) && wmaxTid(t.atomics.layerInfo) == old(wmaxTid(t.atomics.layerInfo))
+//@        && wlimitSid(t.atomics.layerInfo) == old(wlimitSid(t.atomics.layerInfo))
+//@   ensures one-step-sid: wwantedSid(t.atomics.layerInfo) == old(wwantedSid(t.atomics.layerInfo))
+//@        || wwantedSid(t.atomics.layerInfo) == wsid(t.atomics.layerInfo) + 1 || wwantedSid(t.atomics.layerInfo) + 1 == wsid(t.atomics.layerInfo)
+//@        || wwantedSid(t.atomics.layerInfo) == 0
+//@   ensures one-step-tid: wwantedTid(t.atomics.layerInfo) == old(wwantedTid(t.atomics.layerInfo))
+//@        || wwantedTid(t.atomics.layerInfo) == wtid(t.atomics.layerInfo) + 1 || wwantedTid(t.atomics.layerInfo) + 1 == wtid(t.atomics.layerInfo)
+//@   -- C04: a receiver steered to the lowest spatial layer is never asked to go up
+//@   ensures limited-stays-low: wlimitSid(t.atomics.layerInfo) ==> wwantedSid(t.atomics.layerInfo) == 0
+//@
+//@ func (*rtpDownTrack).updateRate
+//@   safe
+//@   nooverflow
+//@   props C04 C12
+//@   requires nonnil: track != nil && dtwf(track)
+//@   modifies track.maxBitrate.bitrate, track.maxBitrate.jiffies, *track.rate
+//@   -- C04: the loss-based bitrate ceiling always stays within its fixed bounds
+//@   ensures clamped: track.maxBitrate.bitrate >= minLossRate && track.maxBitrate.bitrate <= maxLossRate
+//@   ensures stamped: track.maxBitrate.jiffies == now
+//@
+//@ -- ------------------------------------------------------------------ forwarding path (C01-C04)
+//@ -- assumed contracts of what Write calls outside the repository
+//@ iface conn.UpTrack.Codec
+//@   why conn.UpTrack: returns the codec capability of the remote track; an observer
+//@   pure
+//@ iface conn.UpTrack.RequestKeyframe
+//@   why sends a PLI upstream; touches the up track only
+//@   modifies nothing
+//@ extern (*sync.Pool).Get
+//@   why sync.Pool: returns some previously Put value or the result of New; galene only ever puts buffers obtained from packetBufPool.New
+//@        (make([]byte, packetcache.BufSize)) back, and a buffer is not used after Put (pool discipline, assumed)
+//@   modifies nothing
+//@   fresh
+//@   ensures bufpool: same(p, &packetBufPool) ==> isbytes(result) && len(asbytes(result)) == 1504 && cap(asbytes(result)) >= 1504 && !isnil(asbytes(result))
+//@        && ref(asbytes(result)) != ref(result)
+//@   ensures bufpool-fresh: same(p, &packetBufPool) ==> fresh(asbytes(result))
+//@ extern (*sync.Pool).Put
+//@   why sync.Pool: stores x for later reuse
+//@   modifies nothing
+//@ extern (*github.com/pion/webrtc/v4.TrackLocalStaticRTP).Write
+//@   why pion: marshals the packet to the bound write streams (rewriting SSRC / payload type / stripping extensions per binding); does not retain or modify b
+//@   modifies nothing
+//@ extern log.Printf
+//@   why logging only
+//@   modifies nothing
+//@
+//@ -- ghost: what this down track has emitted (specification only)
+//@ ghost field rtpDownTrack.emitted int
+//@ ghost field rtpDownTrack.outSeq uint16
+//@ ghost field rtpDownTrack.outPid15 uint16
+//@ ghost field rtpDownTrack.outPid7 uint8
+//@
+//@ func (*rtpDownTrack).write
+//@   safe
+//@   props C01 C02 C04 C12
+//@   requires nonnil: down != nil && down.track != nil && down.rate != nil
+//@   requires header: len(buf) >= 4
+//@   modifies *down.rate, down.emitted, down.outSeq, down.outPid15, down.outPid7
+//@   ghost down.emitted = old(down.emitted) + 1
+//@   ghost down.outSeq = (uint16(buf[2]) << 8) | uint16(buf[3])
+//@   ghost down.outPid15 = codecs.pid15(buf)
+//@   ghost down.outPid7 = codecs.pid7(buf)
+//@   ensures emitted: down.emitted == old(down.emitted) + 1 && down.outSeq == ((uint16(buf[2]) << 8) | uint16(buf[3]))
+//@        && down.outPid15 == codecs.pid15(buf) && down.outPid7 == codecs.pid7(buf)
+//@
+//@ spec mime(down *rtpDownTrack) string = icall("conn.UpTrack.Codec", down.remote).MimeType
+//@ spec pf(down *rtpDownTrack, buf []byte) codecs.Flags = first(codecs.PacketFlags(mime(down), buf))
+//@ spec pferr(down *rtpDownTrack, buf []byte) bool = !isnil(second(codecs.PacketFlags(mime(down), buf)))
+//@ spec lw(down *rtpDownTrack) uint32 = down.atomics.layerInfo
+//@ -- the packet is above the selected layers (or a non-reference packet of a lower spatial layer)
+//@ spec above(f codecs.Flags, w uint32) bool = f.Tid > wtid(w) || f.Sid > wsid(w) || (f.Sid < wsid(w) && f.SidNonReference)
+//@
+//@ func (*rtpDownTrack).Write
+//@   ematch
+//@   safe
+//@   props C01 C02 C04 C12
+//@   requires nonnil: down != nil && dtwf(down) && down.remote != nil && down.track != nil
+//@   requires map-wf: !held(down.packetmap.mu) && packetmap.wf(&down.packetmap) && packetmap.contiguous(&down.packetmap)
+//@   requires size: len(buf) <= 1504
+//@   assume rely-inv: invw(down.atomics.layerInfo)
+//@   modifies down.atomics.layerInfo, *down.rate, down.packetmap, full(down.packetmap.entries), down.emitted, down.outSeq, down.outPid15, down.outPid7
+//@   -- proof step: the private copy handed to RewritePacket has the geometry and picture id of the input
+//@   assert at call RewritePacket#1 copy-len: len(arg_data) == len(buf)
+//@   assert at call RewritePacket#1 copy-b0: len(buf) >= 12 ==> arg_data[0] == buf[0] && codecs.off1(arg_data) == codecs.off1(buf)
+//@   assert at call RewritePacket#1 copy-xlen: len(buf) >= 12 && len(buf) >= codecs.off1(buf) + 4 ==>
+//@        arg_data[codecs.off1(buf) + 2] == buf[codecs.off1(buf) + 2] && arg_data[codecs.off1(buf) + 3] == buf[codecs.off1(buf) + 3]
+//@   assert at call RewritePacket#1 copy-off2: len(buf) >= 12 ==> codecs.reaches(arg_data) == codecs.reaches(buf) && (codecs.reaches(buf) ==> codecs.off2(arg_data) == codecs.off2(buf))
+//@   assert at call RewritePacket#1 copy-d0: len(buf) >= 12 && codecs.reaches(buf) ==> arg_data[codecs.off2(buf)] == buf[codecs.off2(buf)]
+//@   assert at call RewritePacket#1 copy-d1: len(buf) >= 12 && codecs.reaches(buf) && codecs.off2(buf) + 1 < len(buf) ==> arg_data[codecs.off2(buf) + 1] == buf[codecs.off2(buf) + 1]
+//@   assert at call RewritePacket#1 copy-d2: len(buf) >= 12 && codecs.reaches(buf) && codecs.off2(buf) + 2 < len(buf) ==> arg_data[codecs.off2(buf) + 2] == buf[codecs.off2(buf) + 2]
+//@   assert at call RewritePacket#1 copy-d3: len(buf) >= 12 && codecs.reaches(buf) && codecs.off2(buf) + 3 < len(buf) ==> arg_data[codecs.off2(buf) + 3] == buf[codecs.off2(buf) + 3]
+//@   assert at call RewritePacket#1 copy-vx: len(buf) >= 12 && codecs.reaches(buf) ==> codecs.vx(arg_data) == codecs.vx(buf)
+//@   assert at call RewritePacket#1 copy-vi: len(buf) >= 12 && codecs.reaches(buf) && codecs.off2(buf) + 1 < len(buf) ==> codecs.vi(arg_data) == codecs.vi(buf)
+//@   assert at call RewritePacket#1 copy-vm: len(buf) >= 12 && codecs.reaches(buf) && codecs.off2(buf) + 2 < len(buf) ==> codecs.vm(arg_data) == codecs.vm(buf) && codecs.pid7(arg_data) == codecs.pid7(buf)
+//@   assert at call RewritePacket#1 copy-pid15: len(buf) >= 12 && codecs.reaches(buf) && codecs.off2(buf) + 3 < len(buf) ==> codecs.pid15(arg_data) == codecs.pid15(buf)
+//@   assert at call RewritePacket#1 copy-geometry: len(buf) >= 12 ==> codecs.haspid(arg_data) == codecs.haspid(buf)
+//@   assert at call RewritePacket#1 copy-geometry2: len(buf) >= 12 && codecs.haspid(buf) ==> codecs.vm(arg_data) == codecs.vm(buf) && codecs.pid7(arg_data) == codecs.pid7(buf)
+//@        && (codecs.vm(buf) ==> codecs.pid15(arg_data) == codecs.pid15(buf))
+//@   ensures map-wf: !held(down.packetmap.mu) && packetmap.wf(&down.packetmap)
+//@   -- C04: the selection never exceeds the highest layers seen (for all interleavings: rely/guarantee on the word)
+//@   ensures inv: invw(lw(down))
+//@   ensures error-no-effect: old(pferr(down, buf)) ==> down.emitted == old(down.emitted) && lw(down) == old(lw(down))
+//@   -- C04: the spatial layer changes only at the first packet of a keyframe, or follows a new top layer
+//@   ensures sid-switch: wsid(lw(down)) != old(wsid(lw(down))) ==> (old(pf(down, buf)).Start && old(pf(down, buf)).Keyframe)
+//@        || (old(wsid(lw(down))) == old(wmaxSid(lw(down))) && !old(wlimitSid(lw(down))) && old(pf(down, buf)).Sid > old(wmaxSid(lw(down))) && wsid(lw(down)) == old(pf(down, buf)).Sid)
+//@   -- C04: the temporal layer falls only at the start of a frame
+//@   ensures tid-falls: wtid(lw(down)) < old(wtid(lw(down))) ==> old(pf(down, buf)).Start
+//@   -- C04: ... and rises only at a keyframe, at an up-switch point for a layer not above the wanted one, or following a new top layer
+//@   ensures tid-rises: wtid(lw(down)) > old(wtid(lw(down))) ==> (old(pf(down, buf)).Start && old(pf(down, buf)).Keyframe)
+//@        || (old(pf(down, buf)).Start && old(pf(down, buf)).TidUpSync && old(pf(down, buf)).Tid <= wwantedTid(lw(down)) && wtid(lw(down)) == old(pf(down, buf)).Tid)
+//@        || (old(wtid(lw(down))) == old(wmaxTid(lw(down))) && old(pf(down, buf)).Tid > old(wmaxTid(lw(down))) && wtid(lw(down)) <= old(pf(down, buf)).Tid)
+//@   -- C04: a receiver that asked for low quality is steered to the lowest spatial layer at the next keyframe
+//@   ensures limit-sid: wlimitSid(lw(down)) && old(pf(down, buf)).Start && old(pf(down, buf)).Keyframe && !old(pferr(down, buf)) ==> wsid(lw(down)) == 0
+//@   -- C04: a packet above the selection that arrives in order is withheld (nothing is emitted, the map records it)
+//@   ensures withheld: !old(pferr(down, buf)) && above(old(pf(down, buf)), lw(down)) && old(pf(down, buf)).Seqno == old(down.packetmap.next) ==>
+//@        down.emitted == old(down.emitted) && down.packetmap.dropped == old(down.packetmap.dropped) + 1
+//@   -- at most one packet is emitted per call
+//@   ensures at-most-one: down.emitted == old(down.emitted) || down.emitted == old(down.emitted) + 1
+//@   -- C01: an emitted in-order packet carries the number the map assigned: its source number minus the packets withheld
+//@   ensures number: down.emitted == old(down.emitted) + 1 && (old(packetmap.pristine(&down.packetmap)) || old(packetmap.inorder(&down.packetmap, pf(down, buf).Seqno))) ==>
+//@        down.outSeq == old(pf(down, buf)).Seqno - old(down.packetmap.dropped)
+//@   -- C02: VP8 picture ids stay consecutive: an emitted in-order packet carries its source picture id minus the number of
+//@   --      frames withheld before it (mod 2^15, or 2^7 for the short form)
+//@   ensures pid15: down.emitted == old(down.emitted) + 1 && len(buf) >= 12 && strings.EqualFold(mime(down), "video/vp8") && old(codecs.haspid(buf)) && old(codecs.vm(buf))
+//@        && (old(packetmap.pristine(&down.packetmap)) || old(packetmap.inorder(&down.packetmap, pf(down, buf).Seqno))) ==>
+//@        down.outPid15 == ((old(codecs.pid15(buf)) - old(down.packetmap.droppedFrames)) & 0x7FFF)
+//@   ensures pid7: down.emitted == old(down.emitted) + 1 && len(buf) >= 12 && strings.EqualFold(mime(down), "video/vp8") && old(codecs.haspid(buf)) && !old(codecs.vm(buf))
+//@        && (old(packetmap.pristine(&down.packetmap)) || old(packetmap.inorder(&down.packetmap, pf(down, buf).Seqno))) ==>
+//@        down.outPid7 == ((old(codecs.pid7(buf)) - uint8(old(down.packetmap.droppedFrames))) & 0x7F)
+//@   -- C02: the cached packet handed to Write is never modified
+//@   ensures input-kept: forall k int :: 0 <= k && k < len(buf) ==> buf[k] == old(buf[k])
